@@ -54,7 +54,7 @@ theorem copy_is_kth (P : Params) (evs : List Ev) (pre post : List Entry) (id k t
 /-- The k-th copy (k ≥ 1) is made at a housekeeping time strictly later than `k × ACK_TIMEOUT` after the first. -/
 theorem copy_spacing (P : Params) (evs : List Ev) (id k t m : Nat)
     (h : Entry.tx id k t m ∈ (run P evs).log) (hk : 1 ≤ k) :
-    ∃ t0, Entry.tx id 0 t0 m ∈ (run P evs).log ∧ t0 + k * P.ackTimeout < t :=
+    ∃ t0 m0, Entry.tx id 0 t0 m0 ∈ (run P evs).log ∧ t0 + k * P.ackTimeout < t :=
   ((inv_run P evs).sp id k t m h).2.2 hk
 
 /-- No copy carries a label above `MAX_RETRANSMIT`. -/
@@ -62,15 +62,60 @@ theorem copy_index_bounded (P : Params) (evs : List Ev) (id k t m : Nat)
     (h : Entry.tx id k t m ∈ (run P evs).log) : k ≤ P.maxRetransmit :=
   ((inv_run P evs).sp id k t m h).1
 
-/-- Every copy of a request carries the same message: the private clone taken when the call was made
-    (editing the caller's message afterwards — event `mut` — changes nothing). -/
-theorem copies_identical (P : Params) (evs : List Ev) (id k t m k' t' m' : Nat)
-    (h : Entry.tx id k t m ∈ (run P evs).log) (h' : Entry.tx id k' t' m' ∈ (run P evs).log) : m = m' := by
+/-! The code has **two sources** for the bytes of a request: the first datagram is written from the caller's own
+`*pool.Message` (`session.WriteMessage(req)`, after the NSTART wait), every retransmission from the private clone
+that `prepareWriteMessage` took when the call was made (before the wait).  The model keeps them apart
+(`Call.req`, edited by the event `mut`, and `Call.msg`).  The message handed to `Do` belongs to the call until
+`Do` returns — `pool.Message` is not safe for concurrent use, an edit during the call is a data race — so
+"the caller does not touch the message while the call runs" is a precondition of the API; the only edits that
+matter are those made while the request is still queued for its NSTART slot (ghost flag `touched`). -/
+
+/-- All retransmissions (copies 1, 2, …) of a request carry the same bytes — the clone — **whatever** the caller
+    does to its message, at any time. -/
+theorem retransmissions_identical (P : Params) (evs : List Ev) (id k t m k' t' m' : Nat)
+    (h : Entry.tx id k t m ∈ (run P evs).log) (h' : Entry.tx id k' t' m' ∈ (run P evs).log)
+    (hk : 1 ≤ k) (hk' : 1 ≤ k') : m = m' := by
   have hi := inv_run P evs
-  obtain ⟨c, hc, h1, h2⟩ := (hi.sp id k t m h).2.1
-  obtain ⟨c', hc', h1', h2'⟩ := (hi.sp id k' t' m' h').2.1
+  obtain ⟨c, hc, h1, h2, _⟩ := (hi.sp id k t m h).2.1
+  obtain ⟨c', hc', h1', h2', _⟩ := (hi.sp id k' t' m' h').2.1
   have := eq_of_id_eq hi.ids hc hc' (by rw [h1, h1'])
-  rw [← h2, ← h2', this]
+  rw [← h2 hk, ← h2' hk', this]
+
+/-- Every copy of a request, the first transmission included, carries the same bytes, **provided the caller did not
+    edit its message while the request was queued for an NSTART slot** (`touched = false`).  Edits made after the
+    first transmission do not matter (they do not set the flag). -/
+theorem copies_identical (P : Params) (evs : List Ev) (id k t m k' t' m' : Nat)
+    (h : Entry.tx id k t m ∈ (run P evs).log) (h' : Entry.tx id k' t' m' ∈ (run P evs).log)
+    (huntouched : ∀ c ∈ (run P evs).calls, c.id = id → c.touched = false) : m = m' := by
+  have hi := inv_run P evs
+  obtain ⟨c, hc, h1, h2, h3⟩ := (hi.sp id k t m h).2.1
+  obtain ⟨c', hc', h1', h2', h3'⟩ := (hi.sp id k' t' m' h').2.1
+  have hcc := eq_of_id_eq hi.ids hc hc' (by rw [h1, h1'])
+  subst hcc
+  have ht := huntouched c hc h1
+  have e1 : c.msg = m := by
+    rcases Nat.eq_zero_or_pos k with hk | hk
+    · exact h3 hk ht
+    · exact h2 hk
+  have e2 : c.msg = m' := by
+    rcases Nat.eq_zero_or_pos k' with hk | hk
+    · exact h3' hk ht
+    · exact h2' hk
+  rw [← e1, ← e2]
+
+/-- The flag is raised by an edit of that request's message only: if the caller never edits the message of request
+    `id` during the run, all copies of `id` are identical. -/
+theorem copies_identical_if_not_edited (P : Params) (evs : List Ev) (id k t m k' t' m' : Nat)
+    (h : Entry.tx id k t m ∈ (run P evs).log) (h' : Entry.tx id k' t' m' ∈ (run P evs).log)
+    (hno : ∀ x, Ev.mut id x ∉ evs) : m = m' := by
+  refine copies_identical P evs id k t m k' t' m' h h' (fun c hc hid => ?_)
+  cases ht : c.touched with
+  | false => rfl
+  | true =>
+    exfalso
+    rcases touched_runFrom evs init c hc ht with ⟨c0, h0, _⟩ | ⟨x, hx⟩
+    · cases h0
+    · rw [hid] at hx; exact hno x hx
 
 /-! ## silence after a stop -/
 
@@ -265,6 +310,12 @@ example : (run P0 [.send 0 7 none, .advance 10, .tick 0, .advance 1, .tick 0, .a
 example : (run P0 [.send 0 7 none, .send 1 8 none, .mut 0 9, .advance 11, .tick 0, .recvMid 0 (.pig 5)]).log.reverse =
     [.tx 0 0 0 7, .tx 0 1 11 7, .stop 0 11, .tx 1 0 11 8, .got 0 5, .ret 0 (.ok 5) 11] := by decide
 
+/-- precondition breached: the caller edits request 1 while it is queued behind NSTART = 1 — the first datagram
+    carries the edited message (9), the retransmission the clone (8); an edit after the first transmission
+    (request 0) has no effect -/
+example : (run P0 [.send 0 7 none, .send 1 8 none, .mut 1 9, .mut 0 6, .recvMid 0 .ack, .advance 11, .tick 0]).log.reverse =
+    [.tx 0 0 0 7, .stop 0 0, .tx 1 0 0 9, .tx 1 1 11 8] := by decide
+
 /-- reset: the writer is woken, nothing more is sent, the call does not succeed until a real response arrives -/
 example : (run P0 [.send 0 7 none, .recvMid 0 .rst, .advance 50, .tick 0, .resp 0 3]).log.reverse =
     [.tx 0 0 0 7, .stop 0 0, .got 0 3, .ret 0 (.ok 3) 50] := by decide
@@ -286,7 +337,9 @@ open CoapVerif.Props.C06
 #print axioms copy_is_kth
 #print axioms copy_spacing
 #print axioms copy_index_bounded
+#print axioms retransmissions_identical
 #print axioms copies_identical
+#print axioms copies_identical_if_not_edited
 #print axioms silent_after_stop
 #print axioms ack_is_stop
 #print axioms cancel_returns
